@@ -41,6 +41,7 @@ var rfcTables = map[string]map[string]byte{
 	"include":      tbl("revision-date:?"),
 	"belongs-to":   tbl("prefix:1"),
 	"revision":     tbl("description:? reference:?"),
+	"deviation":    tbl("description:? deviate:+ reference:?"),
 	"typedef":      tbl("default:? description:? reference:? status:? type:1 units:?"),
 	"type":         tbl("bit:* enum:* length:? path:? pattern:* range:? require-instance:? type:* base:? fraction-digits:?"),
 	"container":    tbl(star(dataDefs) + "config:? description:? grouping:* if-feature:* must:* presence:? reference:? status:? typedef:* when:?"),
@@ -72,16 +73,25 @@ var rfcTables = map[string]map[string]byte{
 var baseline = map[string][]string{
 	"module": {"namespace", "prefix"}, "submodule": {"belongs-to"}, "import": {"prefix"},
 	"belongs-to": {"prefix"}, "typedef": {"type"}, "leaf": {"type"}, "leaf-list": {"type"},
-	"list": {"leaf", "key"}, "input": {"leaf"}, "output": {"leaf"},
+	"list": {"leaf", "key"}, "input": {"leaf"}, "output": {"leaf"}, "deviation": {"deviate"},
 }
 
 // every RFC 6020 statement keyword
 var allKeywords = strings.Fields("anyxml argument augment base belongs-to bit case choice config contact container default description deviate deviation enum error-app-tag error-message extension feature fraction-digits grouping identity if-feature import include input key leaf leaf-list length list mandatory max-elements min-elements module must namespace notification ordered-by organization output path pattern position prefix presence range reference refine require-instance revision revision-date rpc status submodule type typedef unique units uses value when yang-version yin-element")
 
+// every keyword is a parent: those without an RFC substatement table are terminal
+// statements (description, prefix, key, ...), under which only extension statements may
+// appear.
 func sortedParents() []string {
 	var ps []string
 	for _, k := range allKeywords {
 		if _, ok := rfcTables[k]; ok {
+			ps = append(ps, k)
+			continue
+		}
+		// no table here: 'deviate' and 'refine' depend on their argument / target, 'when'
+		// has substatements only since YANG 1.1, the RFC table and ABNF of 'uses' disagree — unspecified, not generated
+		if k != "deviate" && k != "refine" && k != "when" && k != "uses" {
 			ps = append(ps, k)
 		}
 	}
